@@ -705,6 +705,47 @@ mod tests {
         assert_eq!(o[0], Op::new("R", vec![Obj::Int(1), Obj::Int(0)]));
     }
 
+    /// equality up to the serializer's number form (6 decimals, integral reals written as integers)
+    fn equiv(a: &Obj, b: &Obj) -> bool {
+        match (a, b) {
+            (Obj::Array(x), Obj::Array(y)) => x.len() == y.len() && x.iter().zip(y).all(|(p, q)| equiv(p, q)),
+            (Obj::Dict(x), Obj::Dict(y)) => x.len() == y.len() && x.iter().zip(y.iter()).all(|((k1, v1), (k2, v2))| k1 == k2 && equiv(v1, v2)),
+            _ => match (a.as_num(), b.as_num()) {
+                (Some(p), Some(q)) => (p - q).abs() <= 1e-6,
+                _ => a == b,
+            },
+        }
+    }
+
+    /// Binding to the outside world: page content written by third-party producers (qpdf,
+    /// pdfTeX, Quartz, …) must tokenise, must satisfy the operand table (guards the table
+    /// against demanding more than conforming writers emit) and must survive
+    /// write_content -> parse_content unchanged.
+    #[test]
+    fn real_world_page_content() {
+        let root = std::env::var("VERIF_REPO").unwrap_or_else(|_| "/repo".into());
+        let mut pages_seen = 0;
+        let mut ops_seen = 0;
+        let mut operators: std::collections::BTreeSet<String> = Default::default();
+        for name in ["interop_base.pdf", "Cold_Email_Hacks.pdf", "issue_272_higgs_arxiv_1207_7214.pdf", "issue_286_indexed_images.pdf", "issue_498_actual_text_interop.pdf"] {
+            let Ok(b) = std::fs::read(format!("{root}/oxidize-pdf-core/tests/fixtures/{name}")) else { panic!("{name} missing") };
+            let f = crate::file::PdfFile::parse(&b).unwrap_or_else(|e| panic!("{name}: {e}"));
+            for (pi, pg) in f.pages().unwrap().iter().enumerate().take(40) {
+                let c = f.page_content(pg).unwrap_or_else(|e| panic!("{name} p{pi}: {e}"));
+                let (o, issues) = parse_content_strict(&c).unwrap_or_else(|e| panic!("{name} p{pi}: {e}"));
+                let table: Vec<&Issue> = issues.iter().filter(|i| matches!(i.kind, IssueKind::OperandCount | IssueKind::OperandType | IssueKind::UnknownOperator | IssueKind::Number | IssueKind::Dangling)).collect();
+                assert!(table.is_empty(), "{name} p{pi}: {:?}", &table[..table.len().min(3)]);
+                let back = parse_content(&write_content(&o)).unwrap();
+                assert!(back.len() == o.len() && back.iter().zip(&o).all(|(a, b)| a.operator == b.operator && a.operands.len() == b.operands.len() && a.operands.iter().zip(&b.operands).all(|(x, y)| equiv(x, y))), "{name} p{pi}: write/parse round trip");
+                pages_seen += 1;
+                ops_seen += o.len();
+                operators.extend(o.iter().map(|x| x.name()));
+            }
+        }
+        eprintln!("{pages_seen} pages, {ops_seen} operators, {} distinct: {operators:?}", operators.len());
+        assert!(pages_seen >= 10 && ops_seen > 5000 && operators.len() >= 25);
+    }
+
     #[test]
     fn write_roundtrip() {
         let src = b"q 0.5 0 0 -1.25 3 4 cm /GS1 gs [1 2.5] 0 d BT /F1 12 Tf (a\\(b\\\\) Tj [(x) -10 <00ff>] TJ /Span <</ActualText (y) /MCID 3>> BDC EMC ET Q";
